@@ -29,14 +29,14 @@ Qed.
 Lemma stored_pair g sp i :
   Inv g sp -> In i (intfs g) ->
   exists a b a' b', lookup i (pI sp) = Some (a, b) /\ lookup i (i2s g) = Some (a', b') /\
-                    unord (a, b) (a', b') /\ a' <> b' /\ In a' (sds g) /\ In b' (sds g) /\
+                    unord (a, b) (a', b') /\ In a' (sds g) /\ In b' (sds g) /\
                     fst i <= fst a' /\ fst i <= fst b'.
 Proof.
   intros HI Hi. rewrite (inv_intfs _ _ HI) in Hi.
   destruct (In_keys_lookup _ _ Hi) as ([a b] & Hl).
   pose proof (inv_rel _ _ HI i) as Hr. rewrite Hl in Hr.
   destruct (lookup i (i2s g)) as [[a' b']|] eqn:E; [|contradiction].
-  destruct (inv_wf _ _ HI i a b Hl) as (Hab & Ha & Hb & Hda & Hdb & _).
+  destruct (inv_wf _ _ HI i a b Hl) as (Ha & Hb & Hda & Hdb & _).
   exists a, b, a', b'. rewrite (inv_sds _ _ HI). cbn in Hr. unfold unord in Hr. cbn [fst snd] in Hr.
   split; auto. split; auto. split; [exact Hr|].
   destruct Hr as [[-> ->]|[-> ->]]; repeat split; auto.
@@ -87,17 +87,21 @@ Proof.
   apply negb_true_iff in H. apply mem_nIn; auto.
 Qed.
 
+Lemma dupfree_nodupb l : dupfree l = nodupb l.
+Proof. induction l as [|x r IH]; cbn; congruence. Qed.
+
 Lemma step_add g sp l :
   Inv g sp -> okb sp (AddSd l) = true ->
   exists g', step g (AddSd l) = (g', Done) /\ Inv g' (sstep sp (AddSd l)).
 Proof.
   intros HI Hok. cbn in Hok. apply andb_true_iff in Hok. destruct Hok as [Hnd Hfr].
+  assert (Hdf : negb (dupfree l) = false) by (rewrite dupfree_nodupb, Hnd; reflexivity).
   apply nodupb_NoDup in Hnd. pose proof (forallb_fresh _ _ Hfr) as Hfresh.
   cbn [step]. unfold add_subdomains.
   assert (Hex : existsb (fun s => mem s (sds g)) l = false).
   { destruct (existsb _ l) eqn:E; auto. apply existsb_exists in E. destruct E as (x & Hx & Hm).
     apply mem_In in Hm. rewrite (inv_sds _ _ HI) in Hm. exfalso. eapply Hfresh; eauto. }
-  rewrite Hex.
+  rewrite Hex, Hdf.
   destruct (add_bgs_spec l (s2b g) (bgs g) (nbg g) (inv_bi _ _ HI) Hnd) as (m' & b' & n' & He & HB & Hiff).
   { intros x Hx Hin. apply (inv_bk _ _ HI) in Hin. destruct Hin as [Hin _].
     rewrite (inv_sds _ _ HI) in Hin. eapply Hfresh; eauto. }
@@ -110,7 +114,7 @@ Proof.
   - apply (inv_ndI _ _ HI).
   - apply (inv_keys _ _ HI).
   - apply (inv_rel _ _ HI).
-  - intros i a b Hl. destruct (inv_wf _ _ HI i a b Hl) as (H1 & H2 & H3 & H4 & H5 & H6).
+  - intros i a b Hl. destruct (inv_wf _ _ HI i a b Hl) as (H2 & H3 & H4 & H5 & H6).
     cbn [pS pI]. repeat split; auto; apply in_app_iff; auto.
   - exact HB.
   - intros s. rewrite Hiff, (inv_bk _ _ HI s), in_app_iff. tauto.
@@ -134,12 +138,12 @@ Lemma step_intf g sp i a b :
   exists g', step g (AddIntf i a b) = (g', Done) /\ Inv g' (sstep sp (AddIntf i a b)).
 Proof.
   intros HI Hok. cbn [okb] in Hok. rewrite !andb_true_iff in Hok.
-  destruct Hok as (((((((Hi & Ha) & Hb) & Hab) & Hda) & Hdb) & Hco) & Hj).
-  apply negb_true_iff in Hi. apply mem_In in Ha. apply mem_In in Hb. apply neqb_true in Hab.
+  destruct Hok as ((((((Hi & Ha) & Hb) & Hda) & Hdb) & Hco) & Hj).
+  apply negb_true_iff in Hi. apply mem_In in Ha. apply mem_In in Hb.
   apply Nat.leb_le in Hda. apply Nat.leb_le in Hdb. apply negb_true_iff in Hj.
   cbn [step]. unfold add_interface. unfold gdim.
   rewrite (inv_intfs _ _ HI), Hi, Hco, (inv_sds _ _ HI).
-  destruct (sort_tuple_ok (pS sp) a b Ha Hb Hab) as (x & y & Hst & Hlt & Hor). rewrite Hst.
+  destruct (sort_tuple_gen (pS sp) a b Ha Hb) as (x & y & Hst & Hlt & Hor). rewrite Hst.
   eexists; split; [reflexivity|].
   assert (Hni : ~ In i (map fst (pI sp))) by (apply mem_nIn; auto).
   assert (Hni2 : ~ In i (map fst (i2s g))).
@@ -160,7 +164,7 @@ Proof.
     gcase i j; cbn; auto.
   - intros j c d. cbn [pS pI]. rewrite lookup_app. destruct (lookup j (pI sp)) as [p|] eqn:E.
     + intros Hp; inversion Hp; subst.
-      destruct (inv_wf _ _ HI j c d E) as (H1 & H2 & H3 & H4 & H5 & H6).
+      destruct (inv_wf _ _ HI j c d E) as (H2 & H3 & H4 & H5 & H6).
       repeat split; auto. intros k e f. rewrite lookup_app.
       destruct (lookup k (pI sp)) as [p'|] eqn:E'.
       * intros Hp' Hu'; inversion Hp'; subst. eapply H6; eauto.
